@@ -19,6 +19,7 @@ import logging
 
 import common as C
 import fault_probes as FP
+import re_probes as RP
 from props import dispcommon as D
 
 MANIFEST = {
@@ -294,6 +295,7 @@ def run(ctx, model=True):
             res.violations.append(C.Violation(sig, "implementation-only probe: " + what, pc))
     res.notes.append("re-entrant subscribe/unsubscribe during dispatch is probed on the implementation only (outside the Lean model)")
     FP.run_probes(ctx, res, PROBE_JUDGES, ["close"], 40, 800)
+    RP.add_to(res, ["dying-subscriber"])
     return res
 
 
@@ -307,6 +309,9 @@ def replay(ctx, data):
     case = data.get("case")
     if not case:
         return res
+    r = RP.replay(data)
+    if r is not None:
+        return r
     if FP.is_probe(data):
         return FP.replay_probe(ctx, data, PROBE_JUDGES)
     if case.get("probe") == "reentrant":
